@@ -11,7 +11,8 @@
 From Common Require Import Bytes Outcome.
 From Coq Require Import Permutation Sorted.
 From Scale Require Import Compact CompactProofs Types Spec Codec FieldOrder FieldOrderProofs EncodeProofs RoundTrip.
-From C11 Require Import Model Proofs.
+From Scale Require Import WellTyped.
+From C11 Require Import Model Proofs ProofsGuards.
 Local Open Scope N_scope.
 
 (* canonicity: on every well-typed value of every shape Marshal's bytes are the canonical SCALE
@@ -53,6 +54,21 @@ Theorem C11_roundtrip_refuted : exists t v,
   wf_ty t = true /\ has_type v t = true /\ decode_res current t (encode_go t v) <> Ok (v, []).
 Proof. exact roundtrip_refuted. Qed.
 Print Assumptions C11_roundtrip_refuted.
+
+(* the two guards are exact (second round): inside the guard the property really fails.
+   uint-5to7: on the tree NO input decodes to a value with a 5..7-byte Go uint / int component (for
+   types without maps), so such a value never round-trips; some-enum: Marshal's bytes of a
+   well-typed value with Some(x) at an option-of-enum type are never the canonical encoding *)
+Theorem C11_uint57_guard_exact : forall t v r bs,
+  wf_ty t = true -> map_free t = true -> has_uint57 t v = true ->
+  decode_res current t bs <> Ok (v, r).
+Proof. exact uint57_guard_exact. Qed.
+Print Assumptions C11_uint57_guard_exact.
+
+Theorem C11_some_enum_guard_exact : forall t v,
+  has_type v t = true -> some_enum t v = true -> encode_go t v <> spec_encode t v.
+Proof. exact some_enum_guard_exact. Qed.
+Print Assumptions C11_some_enum_guard_exact.
 
 (* the pinned encoder (before fixes/C11-nil-option.patch) panics on a nil option of an enum *)
 Theorem C11_encode_prefix_refuted : exists t v,
